@@ -10,7 +10,7 @@ from .core import Mod, Source, PKG
 
 @dataclass
 class Ev:
-    kind: str  # bind | import | from | star
+    kind: str  # bind | import | from | star | attr (module-level reads `alias.attr`, names = [(alias, attr)])
     node: ast.stmt
     names: list = field(default_factory=list)  # bind: [name]; from: [(name, asname)]
     target: str = ""  # import: dotted module; from/star: resolved base module
@@ -37,8 +37,42 @@ def module_events(mod: Mod) -> list[Ev]:
     function and class bodies are not executed at import)."""
     out: list[Ev] = []
 
+    def reads(node: ast.AST) -> list:
+        """`name.attr` reads evaluated when `node` executes at module level (function / lambda bodies are not executed)"""
+        found = []
+        stack = [node]
+        while stack:
+            x = stack.pop()
+            if isinstance(x, (ast.FunctionDef, ast.AsyncFunctionDef)):
+                stack.extend(x.decorator_list)
+                stack.extend(d for d in x.args.defaults + x.args.kw_defaults if d is not None)
+                continue
+            if isinstance(x, ast.Lambda):
+                stack.extend(d for d in x.args.defaults + x.args.kw_defaults if d is not None)
+                continue
+            if isinstance(x, ast.ClassDef):
+                stack.extend(x.decorator_list + x.bases + [k.value for k in x.keywords] + x.body)
+                continue
+            if isinstance(x, ast.Attribute) and isinstance(x.value, ast.Name) and isinstance(x.ctx, ast.Load):
+                found.append((x.value.id, x.attr))
+            stack.extend(ast.iter_child_nodes(x))
+        return found
+
+    def attr_event(s: ast.stmt, *parts) -> None:
+        r = [p for part in parts if part is not None for p in reads(part)]
+        if r:
+            out.append(Ev("attr", s, names=r))
+
     def walk(body: list) -> None:
         for s in body:
+            if isinstance(s, (ast.Assign, ast.AnnAssign, ast.AugAssign, ast.Expr, ast.Assert, ast.FunctionDef, ast.AsyncFunctionDef, ast.ClassDef, ast.Return, ast.Raise, ast.Delete)):
+                attr_event(s, s)
+            elif isinstance(s, (ast.If, ast.While)):
+                attr_event(s, s.test)
+            elif isinstance(s, (ast.For, ast.AsyncFor)):
+                attr_event(s, s.iter)
+            elif isinstance(s, (ast.With, ast.AsyncWith)):
+                attr_event(s, *[it.context_expr for it in s.items])
             if isinstance(s, ast.Import):
                 for a in s.names:
                     out.append(Ev("import", s, target=a.name, asname=a.asname))
@@ -113,6 +147,7 @@ class ImportSim:
 
     def run(self, entry: str) -> list[ImportProblem]:
         self.ns: dict[str, set] = {}  # module -> names bound so far ('sys.modules' = keys)
+        self.alias: dict[str, dict] = {}  # module -> {local name: our module it is bound to}
         self.done: set = set()
         self.problems: list[ImportProblem] = []
         self.entry = entry
@@ -144,14 +179,26 @@ class ImportSim:
         self.ns[name] = {"__name__", "__file__", "__doc__", "__all__"} if False else {"__name__", "__file__", "__doc__"}
         self.stack.append(name)
         mod = self.src.mods[name]
+        self.alias.setdefault(name, {})
         for ev in self.events[name]:
-            if ev.kind == "bind":
+            if ev.kind == "attr":
+                for al, attr in ev.names:
+                    target = self.alias[name].get(al)
+                    if target is None or target in self.done or target not in self.ns:
+                        continue
+                    if attr not in self.ns[target] and f"{target}.{attr}" not in self.src.mods:
+                        self._problem(name, ev.node, f"`{al}.{attr}` is read while {target} is only partially initialised (circular import): the name is not bound yet "
+                                                     f"- AttributeError: partially initialized module", f"{name}:attr:{target}:{attr}")
+            elif ev.kind == "bind":
                 self.ns[name].update(ev.names)
+                for n_ in ev.names:
+                    self.alias[name].pop(n_, None)
             elif ev.kind == "import":
                 if self.is_ours(ev.target):
                     if not self._import_dotted(ev.target):
                         self._problem(name, ev.node, f"import {ev.target}: no such module", f"{name}:import:{ev.target}")
                     self.ns[name].add(ev.asname or ev.target.split(".")[0])
+                    self.alias[name][ev.asname or ev.target.split(".")[0]] = ev.target if ev.asname else ev.target.split(".")[0]
                 else:
                     self.ns[name].add(ev.asname or ev.target.split(".")[0])
             elif ev.kind in ("from", "star"):
@@ -181,7 +228,13 @@ class ImportSim:
                         self.ns[name].update(n for n in self.ns[base] if not n.startswith("_"))
                     continue
                 for n, asn in ev.names:
-                    if n in self.ns[base]:
+                    if f"{base}.{n}" in self.src.mods:
+                        # a sub-module: bound to the module object (possibly a partially initialised one)
+                        if n not in self.ns[base]:
+                            self._try_submodule(base, n)
+                        self.ns[name].add(asn)
+                        self.alias[name][asn] = f"{base}.{n}"
+                    elif n in self.ns[base]:
                         self.ns[name].add(asn)
                     elif self._try_submodule(base, n):
                         self.ns[name].add(asn)
